@@ -62,6 +62,14 @@ Proof. vm_compute. reflexivity. Qed.
 Theorem C03_files_in_argument_order : open_files_ok skel_open_files = true.
 Proof. vm_compute. reflexivity. Qed.
 
+(* translator obligation for "the final snapshot / export reflects the whole input": the final output is written
+   by helpers.RunAggregationLoop after its refresh goroutine has acknowledged the stop signal - an UNBUFFERED
+   send, which is also what keeps the last refresh and the final write from running at the same time (an
+   analyze -x sort or a spark trim executed twice at once corrupts the result); agg_loop_ok on the regenerated
+   skeleton (the transition system over this structure is C05's) *)
+Theorem C03_final_output_skeleton : agg_loop_ok skel_agg_loop = true.
+Proof. vm_compute. reflexivity. Qed.
+
 (* ANY accumulator (analyze, reduce: order-sensitive ones included) with one reader at a time and one worker *)
 Theorem C03_any_accumulator_1x1 : forall (A : Type) (f : A -> bytes -> A) (a0 : A) classify c srcs s,
   nreaders c = 1 -> chcap c >= 1 -> rcap c >= 1 ->
